@@ -18,7 +18,8 @@ Cell(wb, sh, c, r) == IF <<sh, c, r>> \in DOMAIN wb.cells THEN wb.cells[<<sh, c,
 
 \* reference folds used by probe formulas (the full aggregate family is XlAgg)
 \* balanced recursion: ranges of several hundred cells would overflow TLC's stack otherwise
-SumItem(h) == IF h.t \in {"err", "num"} THEN h ELSE IF h.t = "date" THEN Open ELSE Whole(0)
+\* (logical values and dates inside a range: Excel ignores the former, no property fixes either - left open)
+SumItem(h) == IF h.t \in {"err", "num"} THEN h ELSE IF h.t \in {"date", "bool"} THEN Open ELSE Whole(0)
 SumPair(l, r) == IF l.t = "err" THEN l ELSE IF r.t = "err" THEN r
                  ELSE IF l.t = "open" \/ r.t = "open" THEN Open ELSE RAdd(l, r)
 RECURSIVE SumRange(_, _, _)
@@ -51,6 +52,7 @@ UpName(f) == f      \* names in instances are written in upper case unless a cas
 EvalCallStrict(f, vals) ==
     CASE f = "SUM"    -> SumArgs(vals)
       [] f = "COUNTA" -> Whole(CountNonBlank(FlatVals(vals)))
+      [] f \in {"MAX", "MIN", "AVERAGE"} -> (LET fe == FirstErr(FlatVals(vals)) IN IF fe.t = "err" THEN fe ELSE Open)   \* XlAgg has the values
       [] OTHER        -> Call(f, vals)
 
 RECURSIVE Eval(_, _, _)
